@@ -2,7 +2,7 @@
    [call_reply] is the reply item (header, decoded result) the call consumed, if it got that far;
    [req_hdr] the header it stamped on its request (transaction id and unit id for TCP, slave id for
    RTU).  Quantified over every client state (= every history), request, scripted transport. *)
-From TM Require Import Base Frame Pdu RtuCodec Framed Client ClientProofs.
+From TM Require Import Base Frame Pdu RtuCodec Framed Client ClientProofs C06More.
 
 Theorem C06_every_outcome_is_classified : forall p m st req bg,
   match call_reply p m st req bg with
@@ -33,3 +33,36 @@ Theorem C06_function_code_mismatch : forall p m st req bg rr,
   call_reply p m st req bg = Some (req_hdr p st, rr) -> fc_value (rr_fc rr) <> fc_value (req_fc req) ->
   fst (call p m st req bg) = CRFcMismatch (req_fc req) rr.
 Proof. exact call_fc_mismatch. Qed.
+
+(* ---- the converse directions: exactly which replies produce which outcome ---- *)
+
+(* success <=> the consumed reply carries the request's header and numerically its function code *)
+Theorem C06_success_iff : forall p m st req bg,
+  is_success (fst (call p m st req bg)) = true <->
+  exists rr, call_reply p m st req bg = Some (req_hdr p st, rr)
+             /\ fc_value (rr_fc rr) = fc_value (req_fc req).
+Proof. exact call_success_iff. Qed.
+
+(* a header-mismatch error is reported exactly for a consumed reply with another header, and carries it *)
+Theorem C06_header_mismatch_iff : forall p m st req bg rr,
+  fst (call p m st req bg) = CRHeaderMismatch rr <->
+  exists rh, call_reply p m st req bg = Some (rh, rr) /\ rh <> req_hdr p st.
+Proof. exact call_header_mismatch_iff. Qed.
+
+(* a function-code-mismatch error is reported exactly for a consumed reply with the right header and
+   another code; it carries the request's function code and that reply *)
+Theorem C06_function_code_mismatch_iff : forall p m st req bg f rr,
+  fst (call p m st req bg) = CRFcMismatch f rr <->
+  (f = req_fc req /\ call_reply p m st req bg = Some (req_hdr p st, rr)
+   /\ fc_value (rr_fc rr) <> fc_value (req_fc req)).
+Proof. exact call_fc_mismatch_iff. Qed.
+
+(* the three reply-driven outcomes exclude one another and exhaust the calls that consumed a reply *)
+Theorem C06_reply_outcome_cases : forall p m st req bg rh rr,
+  call_reply p m st req bg = Some (rh, rr) ->
+  let c := fst (call p m st req bg) in
+  (rh <> req_hdr p st /\ c = CRHeaderMismatch rr) \/
+  (rh = req_hdr p st /\ fc_value (rr_fc rr) <> fc_value (req_fc req) /\ c = CRFcMismatch (req_fc req) rr) \/
+  (rh = req_hdr p st /\ fc_value (rr_fc rr) = fc_value (req_fc req)
+   /\ c = match rr with RROk r => CROk r | RRExc e => CRExc (exr_exception e) end).
+Proof. exact call_reply_outcome_cases. Qed.
